@@ -78,8 +78,12 @@ def gen_sort(tier, rng):
     n = 40 if tier == "quick" else 600
     for k in range(n):
         L = rng.randint(0, 9)
-        kind = rng.choice(["int", "int", "mixed", "str"])
-        if kind == "int":
+        kind = rng.choice(["int", "int", "mixed", "str", "bigint", "bigint"])
+        if kind == "bigint":
+            L = rng.randint(2, 30)
+            xs = [rng.choice([2**53, 2**53 + 1, 2**53 + 2, 2**53 + 3, 2**62, 2**62 + 1, I64_MAX, I64_MAX - 1, I64_MAX - 2, -(2**53) - 1, -(2**53), -(2**53) - 2, I64_MIN + 1, I64_MIN + 2,
+                              1700000000123456789, 1700000000123456790, 1700000000123456791]) for _ in range(L)]
+        elif kind == "int":
             xs = [rng.choice([rng.randint(-5, 5), rng.randint(-10**6, 10**6), I64_MAX, I64_MIN + 1, 0]) for _ in range(L)]
         elif kind == "mixed":
             xs = [rng.choice([rng.randint(-4, 4), rng.randint(-4, 4) + 0.5, float(rng.randint(-4, 4)) + 0.25]) for _ in range(L)]
